@@ -859,6 +859,9 @@ func (st *runState) probes(ri *simcheck.RunInfo, blocks []*chfake.Block) {
 		}
 		if r.Status >= 200 && r.Status < 300 {
 			p["request-answered-2xx"]++
+			if !r.Hostile {
+				p["acked-"+r.Op.Proto]++
+			}
 		}
 	}
 	if st.db.Refused > 0 && st.db.Opened > 0 {
